@@ -211,15 +211,26 @@ theorem timeOk_cancel {q : EvQ} (hq : TimeOk q) (h : Nat) : TimeOk (cancel q h).
     · exact fail_same _ _
   · exact Same.refl w
 
-@[simp] theorem guardSignal_same (fuel : Nat) (w : World) (g : Nat) : Same w (guardSignal fuel w g) := by
-  induction fuel generalizing w g with
+@[simp] theorem condSignal_same (w : World) (g : Nat) : Same w (condSignal w g).1 := by
+  unfold condSignal
+  split
+  · exact Same.refl w
+  · split
+    · exact Same.refl w
+    · exact Same.trans (foldl_same _ (fun w t => sched_same w _ _ _ _ _) _ _)
+        (foldl_same _ (fun w t => guardRemove_same w _ _) _ _)
+
+@[simp] theorem guardSignalF_same (fwd : Bool) (fuel : Nat) (w : World) (g : Nat) : Same w (guardSignalF fwd fuel w g) := by
+  induction fuel generalizing fwd w g with
   | zero => exact fail_same _ _
   | succ n ih =>
-    unfold guardSignal
+    unfold guardSignalF
     split
     · exact Same.refl w
     · rename_i gd _
-      refine Same.trans ?_ (foldl_same _ (fun w o => ih w o) _ _)
+      refine Same.trans ?_ (foldl_same _ (fun w o => ih true w o) _ _)
+      split
+      · exact condSignal_same _ _
       split
       · exact Same.refl w
       · split
@@ -231,6 +242,9 @@ theorem timeOk_cancel {q : EvQ} (hq : TimeOk q) (h : Nat) : TimeOk (cancel q h).
           · exact Same.refl w
         · exact Same.refl w
         · exact fail_same _ _
+
+@[simp] theorem guardSignal_same (fuel : Nat) (w : World) (g : Nat) : Same w (guardSignal fuel w g) :=
+  guardSignalF_same false fuel w g
 
 @[simp] theorem signal_same (w : World) (g : Nat) : Same w (signal w g) := guardSignal_same 8 w g
 
@@ -313,14 +327,5 @@ theorem timeOk_cancel {q : EvQ} (hq : TimeOk q) (h : Nat) : TimeOk (cancel q h).
   split
   · exact ⟨rfl, rfl, rfl, rfl, rfl, rfl, id, rfl, fun _ => rfl, fun _ => rfl, fun _ => rfl⟩
   · exact modProc_same _ _ _ (fun _ => rfl) (fun _ => rfl) (fun _ => rfl)
-
-@[simp] theorem condSignal_same (w : World) (g : Nat) : Same w (condSignal w g).1 := by
-  unfold condSignal
-  split
-  · exact Same.refl w
-  · split
-    · exact Same.refl w
-    · exact Same.trans (foldl_same _ (fun w t => sched_same w _ _ _ _ _) _ _)
-        (foldl_same _ (fun w t => guardRemove_same w _ _) _ _)
 
 end CimbaModel.Sim
